@@ -64,6 +64,25 @@ func Random(r *mon.Rand, o GenOpts) *History {
 		}
 		offs = append(offs, o)
 	}
+	// an eighth of the histories use two clusters of sequence numbers that are FAR apart (more than the sort window
+	// in both directions, no 2^32 wrap inside a cluster): by the roll-over rule the numerically higher cluster is
+	// the older one.  The base is the start of the higher cluster, so offsets from it still give the order.  (The
+	// distance exceeds the window by a margin: with clusters exactly one window apart some pairs are near and some
+	// far and the documented order is not transitive.)  Decided on a forked stream: the other histories of a seed
+	// are unchanged.
+	if fr := r.Fork(77); fr.Chance(1, 8) {
+		d := mon.Pick(fr, []uint32{Window + 1024, 1 << 25, 1 << 28, 1 << 30, 1 << 31, 1<<31 + 12345, 3 << 30, 0xFFFFFFFF - 4096, uint32(Window+1024) + uint32(fr.Intn(1<<30))})
+		h.Base = d + 64 + uint32(fr.Int63n(int64(0xFFFFFFFF-1024-d-64)))
+		for i := range offs {
+			if offs[i] >= 64 {
+				offs[i] %= 40
+			}
+			if fr.Chance(1, 2) {
+				offs[i] += -d // the lower cluster: Base - d + small
+			}
+		}
+		h.Far = true
+	}
 	// optionally a mostly-ascending stream (like the kernel) with disorder
 	ascending := r.Chance(1, 2)
 	n := r.Range(1, o.MaxOps)
